@@ -514,7 +514,17 @@ type AdmitOut struct {
 	HadDeadline bool     `json:"-"`
 	ExtraAnn    []string `json:"-"`
 	Panic       string   `json:"-"`
+	// the request carried no time limit of its own (no staged expiry, no short deadline) and still took so long that the
+	// controller's own one-second dry-run budget may have run out: the machine, not the code, decided the answer
+	ClockHit bool `json:"-"`
 }
+
+// intendedTimeLimit: the case itself stages an expiry, a cancellation or a deadline shorter than the dry run's own budget
+func (a *AdmitCase) intendedTimeLimit() bool {
+	return a.ExpireAfter >= 0 || a.CtxCancelled || (a.Remaining != 0 && a.Remaining < 2*time.Second)
+}
+
+const wallClockSuspicion = 800 * time.Millisecond
 
 var invalidValueRe = regexp.MustCompile(`^Invalid value: (".*?"): `)
 
@@ -584,8 +594,21 @@ func (a *AdmitCase) attributes() *attrs {
 	return at
 }
 
-// runGo runs the real admission.Validate on the case with fresh fakes.
+// runGo runs the real admission.Validate on the case with fresh fakes. A run that took suspiciously long without the case
+// asking for a time limit is repeated (a busy machine can make the controller's own one-second budget expire).
 func (a *AdmitCase) runGo() (out AdmitOut) {
+	for try := 0; try < 4; try++ {
+		t0 := time.Now()
+		out = a.runGoOnce()
+		if a.intendedTimeLimit() || time.Since(t0) < wallClockSuspicion {
+			return out
+		}
+		out.ClockHit = true
+	}
+	return out
+}
+
+func (a *AdmitCase) runGoOnce() (out AdmitOut) {
 	a.normalize()
 	ev := &evWrap{syn: a.Syn, salt: a.Salt, real: realEvaluator, cancelAt: a.ExpireAfter}
 	rec := &recorder{}
@@ -844,8 +867,10 @@ func runHistory(group []*AdmitCase, order []int) []AdmitOut {
 					outs[i].Panic = fmt.Sprint(r)
 				}
 			}()
+			t0 := time.Now()
 			resp := adm.Validate(ctx, a.attributes())
 			outs[i] = projectResponse(resp, h.rec.ev, h.ev.calls, h.lister)
+			outs[i].ClockHit = !a.intendedTimeLimit() && time.Since(t0) >= wallClockSuspicion
 		}()
 	}
 	return outs
